@@ -11,10 +11,36 @@ from .trace import Tracer
 DIM = "ndarray::impl_methods::<impl ndarray::ArrayBase<S, D>>::dim"
 
 
+def all_slice_specs(v):
+    """every s![..] specification inside an evaluated argument: list of per-axis entries (index values or range structs)"""
+    out = []
+    stack = [v]
+    seen = set()
+    while stack:
+        x = stack.pop()
+        if isinstance(x, Poly):
+            for mono in x.t:
+                for a, _ in mono:
+                    if a[0] == "f":
+                        stack.extend(a[2:])
+        elif isinstance(x, list):
+            stack.extend(x)
+        elif isinstance(x, tuple):
+            if len(x) == 2 and x[0] == "array" and isinstance(x[1], (tuple, list)) and len(x[1]) >= 1 and \
+                    any(isinstance(y, tuple) and y and y[0] == "struct" and str(y[1]).startswith("Range") for y in x[1]):
+                key = repr(x)
+                if key not in seen:
+                    seen.add(key)
+                    out.append(list(x[1]))
+                continue
+            stack.extend(y for y in x if isinstance(y, (tuple, Poly, list)))
+    return out
+
+
 def row_operation_width(ck, F, rule, fn, floor=3):
     b = F.body(fn)
     # private helpers of the module (e.g. an extracted "subtract a multiple of the pivot row") are expanded at their call sites
-    t = Tracer(F, r"ndarray::impl_methods::<impl ndarray::ArrayBase<S, D>>::swap", mode="int",
+    t = Tracer(F, r"ndarray::impl_methods::<impl ndarray::ArrayBase<S, D>>::(swap|slice_mut|multi_slice_mut)", mode="int",
                inline=lambda p: F.bodies.get(p) if p and p.startswith("linalg::") and p != fn else None)
     env = {}
     t.bind(b.params[0], var("array"), env)
@@ -31,7 +57,30 @@ def row_operation_width(ck, F, rule, fn, floor=3):
             a = single_atom(e.args[0]) if isinstance(e.args[0], Poly) else None
             if a and atom_fn(a) == "index" and isinstance(a[3], tuple) and a[3][0] == "array":
                 ops.append(("store", e, a[3]))
+    # whole-row operations through views: array.slice_mut(s![r, a..]) / multi_slice_mut((s![r1, a..], s![r2, a..])) act on the
+    # columns a.. of a row: the range must be open-ended (or full) and start at the pivot column
+    slice_ops = []
+    for e in t.events:
+        if e.callee.endswith(("::slice_mut", "::multi_slice_mut")):
+            specs = all_slice_specs(e.args[1])
+            for sp_ in specs:
+                if len(sp_) == 2:
+                    slice_ops.append((e, sp_))
     n = 0
+    for e, sp_ in slice_ops:
+        n += 1
+        colspec = sp_[1]
+        ok = False
+        why = "column range %r" % (colspec,)
+        if isinstance(colspec, tuple) and colspec[0] == "struct" and colspec[1] == "RangeFull":
+            ok = True
+        elif isinstance(colspec, tuple) and colspec[0] == "struct" and colspec[1] == "RangeFrom":
+            st = dict(colspec[2]).get("start")
+            st = st[1] if isinstance(st, tuple) and len(st) == 2 and st[0] == "P" else st
+            la = single_atom(st) if isinstance(st, Poly) else None
+            ok = la is not None and la[0] == "v" and (any(l[0] == "range" and l[1] == la[1] for l in e.loops) or la[1].endswith("@loop"))
+            why = "columns %r.. of the row (open-ended: to the last column)" % (st,)
+        ck.inst(rule, "%s:row-view#%d" % (fn.rsplit("::", 1)[-1], n), ok, e.site, why + " ; required pivot column .. (whole remaining row)")
     for kind, e, idx in ops:
         n += 1
         # innermost range loop supplies the column index
